@@ -1,7 +1,7 @@
 (* C17 model driver.  One case per line:
    kB temp tol tau damping dt tsf lower upper rlo rup width per P ctr same sub restart rx rv xsaved it0 n {step x fb fba rnd running}*n
    EVERY engine step is given (relative step numbers; it0 = absolute step of relative step 0); the model decides which are awake.
-   Output: "k m gamma sigma refused" (refused: the restart consistency check rejects the first input) then for every step " | err x_rep v_rep epot ekin ft fr f energy x_ext v_ext saved_x saved_v awake". *)
+   Output: "k m gamma sigma refused valid" (refused: the restart consistency check rejects the first input) then for every step " | err x_rep v_rep epot ekin ft fr f energy x_ext v_ext saved_x saved_v awake". *)
 open Model
 open X_fops
 let pi = 3.14159265358979323846
@@ -37,6 +37,7 @@ let () =
         let b = Buffer.create 1024 in
         let refused = match ins with i0 :: _ -> restart && restart_refused fops c xsaved true i0 | [] -> false in
         Buffer.add_string b (Printf.sprintf "%s %s %s %s %d" (hex prm.p_k) (hex prm.p_m) (hex prm.p_gamma) (hex prm.p_sigma) (if refused then 1 else 0));
+        Buffer.add_string b (Printf.sprintf " %d" (if valid_config fops c then 1 else 0));
         List.iter2 (fun i s ->
           let xe = match s.s_x_ext with Some x -> x | None -> nan in
           let (sx, sv) = saved_xv fops s i.i_step in
